@@ -1106,6 +1106,28 @@ def run(ctx):
     loops = [n for n in ast.walk(lfx) if isinstance(n, ast.For) and (dotted(n.iter) or "").endswith(".relationship_lst")
              and P_.norm(n.iter, lal).split(".")[0] in lpar]
     probs, produced = [], 0
+    lfx_outer, lal_outer = lfx, lal
+    if len(loops) != 1:
+        # the filtering loop may be a generator method of the class that load_from_xml hands its own arguments to, in order
+        from sa.inline import resolve_callee as _rc1l
+
+        for c_ in [x for x in ast.walk(lf.node) if isinstance(x, ast.Call)]:
+            try:
+                rc_ = _rc1l(prog, lf, c_, {})
+            except Exception:  # noqa: BLE001
+                rc_ = None
+            g_ = rc_[0] if rc_ is not None and hasattr(rc_[0], "node") and hasattr(rc_[0], "params") else None
+            if g_ is None or g_ is lf or not any(isinstance(y, (ast.Yield, ast.YieldFrom)) for y in ast.walk(g_.node)):
+                continue
+            gps_ = list(g_.params) if (g_.kind == "staticmethod" or g_.cls is None) else list(g_.params)[1:]
+            if [dotted(a_) for a_ in c_.args] != lpar[1:] or c_.keywords or len(gps_) != len(lpar) - 1:
+                continue
+            lfx = _lift(_expand(prog, g_, local_only=True))
+            lal, lval = P_.aliases(lfx), P_.value_aliases(lfx)
+            lpar = ["self"] + gps_
+            loops = [n for n in ast.walk(lfx) if isinstance(n, ast.For) and (dotted(n.iter) or "").endswith(".relationship_lst")
+                     and P_.norm(n.iter, lal).split(".")[0] in lpar]
+            break
     if len(loops) != 1:
         ctx.error("_Relationships.load_from_xml", "the loop over the relationship elements is not recognised")
     else:
@@ -1143,6 +1165,9 @@ def run(ctx):
         if yields:
             upd = [c for c in ast.walk(lfx) if isinstance(c, ast.Call) and isinstance(c.func, ast.Attribute) and c.func.attr == "update"
                    and P_.norm(c.func.value, lal) == "self._rels"]
+            if not upd and lfx_outer is not lfx:
+                upd = [c for c in ast.walk(lfx_outer) if isinstance(c, ast.Call) and isinstance(c.func, ast.Attribute) and c.func.attr == "update"
+                       and P_.norm(c.func.value, lal_outer) == "self._rels"]
             gen_key = any(isinstance(n, ast.GeneratorExp) and isinstance(n.elt, ast.Tuple) and (dotted(n.elt.elts[0]) or "").endswith(".rId")
                           and dotted(n.elt.elts[1]) == dotted(n.elt.elts[0]).rsplit(".", 1)[0] for c in upd for n in ast.walk(c))
             if not (upd and gen_key):
